@@ -624,6 +624,26 @@ class Analyzer:
             self._writing = True
             self.check_expr(lhs, states)
             self._writing = False
+            # A[i] = A[i] + e  /  A[i] = e + A[i]  /  A[i] = A[i] - e  is the in-place form
+            r = n.rhs
+            while tname(r) in ("CoerceToTempNode", "CloneNode", "TypecastNode") and (hasattr(r, "arg") or hasattr(r, "operand")):
+                r = r.arg if hasattr(r, "arg") else r.operand
+            if tname(r) in ("AddNode", "SubNode"):
+                def same_cell(x):
+                    while tname(x) in ("CoerceToTempNode", "CloneNode", "TypecastNode") and (hasattr(x, "arg") or hasattr(x, "operand")):
+                        x = x.arg if hasattr(x, "arg") else x.operand
+                    if tname(x) != "MemoryViewIndexNode" or tname(x.base) != "NameNode" or tname(lhs.base) != "NameNode" or x.base.name != lhs.base.name or len(x.indices) != len(lhs.indices):
+                        return False
+                    try:
+                        return all(repr(self.lin(a)) == repr(self.lin(b)) for a, b in zip(x.indices, lhs.indices))
+                    except Unknown:
+                        return False
+                if same_cell(r.operand1):
+                    self.element_write(lhs, "+" if tname(r) == "AddNode" else "-", r.operand2, states)
+                    return states
+                if tname(r) == "AddNode" and same_cell(r.operand2):
+                    self.element_write(lhs, "+", r.operand1, states)
+                    return states
             self.element_write(lhs, None, n.rhs, states)
             return states
         if lk != "NameNode":
